@@ -491,6 +491,18 @@ func (resp *Response) bodyBuffer() *bytebufferpool.ByteBuffer {
 	return resp.body
 }
 
+// appendBodyBuffer returns the body buffer for appending to the current body.
+// A body set with SetBodyRaw is copied into the buffer first, otherwise
+// bodyBuffer would drop it.
+func (resp *Response) appendBodyBuffer() *bytebufferpool.ByteBuffer {
+	raw := resp.bodyRaw
+	bb := resp.bodyBuffer()
+	if raw != nil {
+		bb.Set(raw)
+	}
+	return bb
+}
+
 func (req *Request) bodyBuffer() *bytebufferpool.ByteBuffer {
 	if req.body == nil {
 		req.body = requestBodyPool.Get()
@@ -763,14 +775,14 @@ func (resp *Response) BodyWriteTo(w io.Writer) error {
 //
 // It is safe re-using p after the function returns.
 func (resp *Response) AppendBody(p []byte) {
-	resp.closeBodyStream(nil)  //nolint:errcheck
-	resp.bodyBuffer().Write(p) //nolint:errcheck
+	resp.closeBodyStream(nil)        //nolint:errcheck
+	resp.appendBodyBuffer().Write(p) //nolint:errcheck
 }
 
 // AppendBodyString appends s to response body.
 func (resp *Response) AppendBodyString(s string) {
-	resp.closeBodyStream(nil)        //nolint:errcheck
-	resp.bodyBuffer().WriteString(s) //nolint:errcheck
+	resp.closeBodyStream(nil)              //nolint:errcheck
+	resp.appendBodyBuffer().WriteString(s) //nolint:errcheck
 }
 
 // SetBody sets response body.
